@@ -70,7 +70,7 @@ def floors(tier):
     return {"fixtures": 2500, "fixtures_exhaustive_vectors": 600, "fixtures_last_valid_earlier_bad": 300,
             "subprocess_runs": 30 if tier == "quick" else 100, "stdin_fixtures": 40, "base_uri_fixtures": 40,
             "validator_option_fixtures": 100, "validator_vs_dollar_schema_fixtures": 150, "mode:plain-custom": 500, "mode:plain-default": 300, "mode:pretty": 500, "mode:plain-empty": 300,
-            "exit0": 100, "exit_nonzero": 1000, "fixtures_long_lists": 10, "indexed_error_formats": 100, "validation_chunks_checked": 2500, "load_diagnostics_checked": 1500}
+            "exit0": 100, "exit_nonzero": 1000, "fixtures_long_lists": 10, "indexed_error_formats": 100, "blank_stdin_fixtures": 15, "validation_chunks_checked": 2500, "load_diagnostics_checked": 1500}
 
 
 class Fixture:
@@ -314,7 +314,10 @@ def one(ctx, root, rng, n, schema_state, inst_states, mode, validator_opt=None, 
         if stdin_mode:
             st = inst_states[0]
             val = rng.choice(VALID) if st == "valid" else INVALID[rng.choice([1, 2, 4, 6, 8, 9, 10])]
-            stdin_text = json.dumps(val) if st in ("valid", "invalid") else "{nope"
+            # (not JSON: a fragment - or nothing at all, or only white space)
+            stdin_text = json.dumps(val) if st in ("valid", "invalid") else rng.choice(["{nope", "", "   \n", "\t", "\n\n"])
+            if st == "notjson" and not stdin_text.strip():
+                ctx.count("blank_stdin_fixtures")
             insts = [("<stdin>", st, val if st in ("valid", "invalid") else None)]
         else:
             for p, st, v in insts:
